@@ -85,7 +85,7 @@ func c04GenAct(r *Rand, cfg *c04Cfg, big bool) c04Act {
 
 func c04GenCfg(r *Rand) c04Cfg {
 	cfg := c04Cfg{Br: []c04Branch{}, Children: r.Intn(4), Named: r.Chance(1, 4), Caller: r.Chance(1, 4),
-		Gomax: Pick(r, []int{1, 2, 4, 8, 16}), Gosched: r.Intn(4), Sampler: r.Chance(1, 8)}
+		Gomax: Pick(r, []int{1, 2, 4, 8, 16}), Gosched: r.Intn(4), Sampler: r.Chance(1, 8), SafeRec: r.Chance(1, 3)}
 	nb := 1 + r.Intn(3)
 	for i := 0; i < nb; i++ {
 		cfg.Br = append(cfg.Br, c04Branch{Sink: Pick(r, c04Sinks), Size: Pick(r, c04BufSizes), Enc: Pick(r, c04Encs),
@@ -129,14 +129,14 @@ func c04GenProg(r *Rand, maxActs int, hostile bool) c04Prog {
 }
 
 func c04Gen(r *Rand, tier string, emit func(op any)) {
-	nprog, maxActs, nhost, nhist := 110, 40, 25, 1500
+	nprog, maxActs, nhost, nhist := 170, 40, 30, 1500
 	if tier == "thorough" {
-		nprog, maxActs, nhost, nhist = 2500, 120, 400, 30000
+		nprog, maxActs, nhost, nhist = 900, 100, 150, 20000
 	}
 	// grid 1: every sink kind alone and in a tee with a Lock(sink) branch, 4 goroutines × every front end at every level
 	for _, sink := range []string{"lock", "open", "openfile", "open2", "combine", "bws", "bwslock", "bwsopen"} {
 		for _, tee := range []bool{false, true} {
-			cfg := c04Cfg{Br: []c04Branch{{Sink: sink, Size: 256, Enc: "json", Min: -1}}, Children: 2, Gomax: 4, Gosched: 2}
+			cfg := c04Cfg{Br: []c04Branch{{Sink: sink, Size: 256, Enc: "json", Min: -1}}, Children: 2, Gomax: 4, Gosched: 2, SafeRec: tee}
 			if tee {
 				cfg.Br = append(cfg.Br, c04Branch{Sink: "lock", Size: 0, Enc: "console", Min: 0})
 			}
@@ -163,7 +163,7 @@ func c04Gen(r *Rand, tier string, emit func(op any)) {
 	// grid 2: identical programs on 2, 4, 8 goroutines hammering one line size at the buffer boundary
 	for _, g := range []int{2, 4, 8} {
 		for _, sz := range []int{0, 150, 186, 187, 400} {
-			cfg := c04Cfg{Br: []c04Branch{{Sink: "bws", Size: 256, Enc: "json", Min: -1}, {Sink: "combine", Enc: "json2", Min: -1}}, Gomax: 8, Gosched: 1}
+			cfg := c04Cfg{Br: []c04Branch{{Sink: "bws", Size: 256, Enc: "json", Min: -1}, {Sink: "combine", Enc: "json2", Min: -1}}, Gomax: 8, Gosched: 1, SafeRec: g == 4}
 			op := c04Prog{K: "prog", Cfg: cfg, Gs: make([][]c04Act, g)}
 			for gi := range op.Gs {
 				op.Gs[gi] = []c04Act{}
